@@ -19,18 +19,26 @@ LEVEL_TEXT = ("Held on every generated function of the run: 1-5 arguments (diffe
               "(2,1,3); floats, ints, constant tensors) x output shapes (), (1,), (3,), (2,2), (2,1,2), (1,3) x function kinds {plain "
               "function with explicit parameters, nn.Module method, EditableModule method} x idxs {None, int, list, tuple} x vectors / "
               "matrices with batch shapes (), (2,), (2,3) and 1-3 columns x {mv, rmv, mm, rmm, fullmatrix, .H products} x first/second "
-              "order derivatives x substitution of all / some operator parameters (directly and through .H), twice, with restoration.")
+              "order derivatives x substitution of all / some operator parameters (directly and through .H), twice, with restoration, and "
+              "substitution blocks left by an exception (function / caller) followed by reuse of the operator; complex128 holomorphic functions "
+              "with wide / square / tall / 1xN / Nx1 Jacobians (jac only).")
 LEVEL_NOTE = "Trusts torch.autograd.functional.jacobian/hessian (create_graph=True) on the same python body; float64; tolerance 1e-10 relative."
 RULE = ("seeded sampling over argument specification (9 layouts) x output shape x function kind x idxs mode x vector batch shape x "
         "differentiated product; groups: jac, hess, subst (cache invalidation), badidx (TypeError), zero_block (structurally zero "
         "Jacobian/Hessian block), argdep (arguments that are the same tensor, views of or functions of one another, or also held by the "
-        "object: partial derivative w.r.t. the selected argument as torch.autograd.functional gives it); non-trivial = operator has >= 2 entries, a product with non-zero dense reference was compared and "
+        "object: partial derivative w.r.t. the selected argument as torch.autograd.functional gives it), subst_exc (a uselinopparams block left by an "
+        "exception of the function at a seeded trial evaluation or of the caller, incl. BaseException; operator reused afterwards), cplx (complex128 "
+        "points, holomorphic functions, wide/square/tall/1xN/Nx1 Jacobians; rmv/rmm/.H = conjugate transpose); non-trivial = operator has >= 2 entries, a product with non-zero dense reference was compared and "
         "(for jac/hess/subst groups) a gradient with non-zero reference was compared")
 MIN_NONTRIVIAL = {"quick": 300, "thorough": 3500}
 ASSUMPTIONS = ["float64, CPU; smooth functions tanh(W1 z + c) * sin(W2 z) * s + 0.1 |z|^2 c^2 + const with |W| ~ 0.5 (all mixed second derivatives non-zero)",
                "total number of inputs <= 60, outputs <= 4",
                "value tolerance 1e-10*(1+|ref|), gradient tolerance 1e-9*(1+|ref|) (largest deviation seen on the repaired tree < 1e-13)",
                "a 'non-differentiable argument' is a float, an int or a tensor with requires_grad=False",
+               "cplx group: complex128 only, functions sin(W1 z + c) exp(0.3 W2 z) s + 0.1 (z.z) c^2 + 0.2 W2 z^2 with complex W (|W| ~ 0.4), <= 20 inputs, "
+               "<= 8 outputs; reference = real/imaginary split Jacobian (Cauchy-Riemann verified); gradients of the real part of a random contraction",
+               "subst_exc group: the exception is raised by the function at the 1st..4th evaluation at the substituted tensors or by the caller after "
+               "0..3 products; Exception or BaseException subclass; it is caught by the caller and the same operator object is reused",
                "zero_block group: a function that ignores one of its differentiable tensor arguments has a zero Jacobian block; a linear "
                "function has a zero Hessian (what torch.autograd.functional returns)"]
 BUDGET = {"quick": {"worker_timeout": 600, "case_timeout": 90}, "thorough": {"worker_timeout": 3000, "case_timeout": 120}}
@@ -39,13 +47,21 @@ REQUIRED_COUNTERS = {
               "subst_products_compared": 600, "subst_objparam_cases": 60, "subst_grad_compared": 100, "subst_restored_checked": 100,
               "typeerror_cases": 30, "hess_operators": 100, "idxs_none": 50, "idxs_int": 50, "idxs_list": 50, "idxs_tuple": 50,
               "kind_pure": 80, "kind_nn": 80, "kind_editable": 80, "reevaluations_forced": 300,
-              "argdep_products_compared": 500, "argdep_nograd_compared": 80, "argdep_subst_compared": 100, "argdep_grad_compared_second": 80},
+              "argdep_products_compared": 500, "argdep_nograd_compared": 80, "argdep_subst_compared": 100, "argdep_grad_compared_second": 80,
+              "subst_exc_left_by_fcn": 40, "subst_exc_left_by_caller": 40, "subst_exc_baseexception": 8, "subst_exc_products_compared": 1000,
+              "subst_exc_grad_compared": 100, "subst_exc_later_products_compared": 2000,
+              "cplx_products_compared": 1500, "cplx_grad_compared": 100, "cplx_fullmatrix_wide": 20, "cplx_fullmatrix_row": 20,
+              "cplx_fullmatrix_square": 20, "cplx_fullmatrix_tall": 15, "cplx_fullmatrix_col": 15},
     "thorough": {"operators_checked": 5000, "products_compared": 40000, "grad_compared_first": 3000, "grad_compared_second": 3000,
                  "subst_products_compared": 6000, "subst_objparam_cases": 600, "subst_grad_compared": 1000,
                  "subst_restored_checked": 1000, "typeerror_cases": 300, "hess_operators": 1000, "idxs_none": 500, "idxs_int": 500,
                  "idxs_list": 500, "idxs_tuple": 500, "kind_pure": 800, "kind_nn": 800, "kind_editable": 800,
                  "reevaluations_forced": 3000,
-                 "argdep_products_compared": 5000, "argdep_nograd_compared": 800, "argdep_subst_compared": 1000, "argdep_grad_compared_second": 800},
+                 "argdep_products_compared": 5000, "argdep_nograd_compared": 800, "argdep_subst_compared": 1000, "argdep_grad_compared_second": 800,
+                 "subst_exc_left_by_fcn": 400, "subst_exc_left_by_caller": 400, "subst_exc_baseexception": 80, "subst_exc_products_compared": 10000,
+                 "subst_exc_grad_compared": 1000, "subst_exc_later_products_compared": 20000,
+                 "cplx_products_compared": 15000, "cplx_grad_compared": 1000, "cplx_fullmatrix_wide": 200, "cplx_fullmatrix_row": 200,
+                 "cplx_fullmatrix_square": 200, "cplx_fullmatrix_tall": 150, "cplx_fullmatrix_col": 150},
 }
 
 DT = torch.float64
@@ -108,8 +124,9 @@ def cases(seed, tier):
         rng = random.Random(sub_seed(seed, "c17z", i))
         out.append({"group": "zero_block", "seed": sub_seed(seed, "c17zs", i), "variant": ["jac_ignored_arg", "jac_ignored_arg_none",
                     "hess_linear", "hess_ignored_arg", "hess_cross_free"][i % 5], "kind": KINDS[(i // 5) % 3], "vb": rng.randrange(len(VBATCH))})
-    from vf import c17_extra
+    from vf import c17_extra, c17_r6
     out.extend(c17_extra.cases(seed, tier))
+    out.extend(c17_r6.cases(seed, tier))
     return out
 
 
@@ -163,7 +180,7 @@ class Problem:
             nargs = len(args)
 
             def fcn(*a):
-                prob.ncalls += 1
+                prob.called()
                 return body(a[:nargs], a[nargs:])
             self.fcn = fcn
             self.params = tuple(args) + tuple(self.W)
@@ -177,7 +194,7 @@ class Problem:
                         self.W1, self.W2, self.cv = W
 
                     def forward(self, *a):
-                        prob.ncalls += 1
+                        prob.called()
                         return body(a, [self.W1, self.W2, self.cv])
             else:
                 class Mod(xitorch.EditableModule):
@@ -185,7 +202,7 @@ class Problem:
                         self.W1, self.W2, self.cv = W
 
                     def forward(self, *a):
-                        prob.ncalls += 1
+                        prob.called()
                         return body(a, [self.W1, self.W2, self.cv])
 
                     def getparamnames(self, methodname, prefix=""):
@@ -196,6 +213,13 @@ class Problem:
             self.full_spec = spec
         self.diff_idxs = [j for j, p in enumerate(self.params) if isinstance(p, torch.Tensor) and p.requires_grad]
         self.nondiff_idxs = [j for j in range(len(self.params)) if j not in self.diff_idxs]
+
+    trap = None      # optional callable run at every evaluation of the function BY XITORCH (never by the dense reference)
+
+    def called(self):
+        self.ncalls += 1
+        if self.trap is not None:
+            self.trap()
 
     def body(self, args, W):
         W1, W2, cv = W
@@ -379,6 +403,9 @@ def run_case(desc):
     if g == "argdep":
         from vf import c17_extra
         return c17_extra.run_case(desc)
+    if g in ("subst_exc", "cplx"):
+        from vf import c17_r6
+        return c17_r6.run_case(desc)
     raise HarnessBug("group %s" % g)
 
 
